@@ -114,6 +114,19 @@ PLAIN = [
      'cost_date, position, price, weight', ('wide',)),
     ('SELECT account, weight, other_accounts WHERE number < 0', ('wide',)),
     ('SELECT weight, other_accounts, account WHERE date > 2020-01-20', ('wide',)),
+    # FROM-subqueries with different target names, SELECT * over them, names that only another subquery has
+    ('SELECT * FROM (SELECT a AS x, b AS y FROM #t0)', ('subq', 'subqnames')),
+    ('SELECT * FROM (SELECT c AS name, a AS n FROM #t0 WHERE a > 1)', ('subq', 'subqnames')),
+    ('SELECT * FROM (SELECT account AS acc, sum(number) AS total GROUP BY account)', ('subq', 'subqnames')),
+    ('SELECT who, n FROM (SELECT c AS who, a AS n FROM #t0) WHERE n >= 0', ('subq', 'subqnames')),
+    ('SELECT x FROM (SELECT a AS y FROM #t0)', ('subq', 'subqnames', 'bad')),
+    ('SELECT name FROM (SELECT a AS x FROM #t0)', ('subq', 'subqnames', 'bad')),
+    ('SELECT acc FROM #', ('subqnames', 'bad')),
+    # per-connection account index: lookups of accounts that were never opened, then the accounts table itself
+    ('SELECT account, open_date(parent(account)) AS o, close_date(root(account, 1)) AS c, open_date(account) AS oa', ('acct',)),
+    ('SELECT account, open.date AS od FROM #accounts', ('acct',)),
+    ('SELECT count(account) AS n FROM #accounts', ('acct',)),
+    ('SELECT open_date("Assets:Nowhere") AS o, close_date("Expenses:Typo") AS c, account LIMIT 2', ('acct',)),
     ('SELECT nosuch FROM #t0', ('bad',)),
     ('SELECT a FROM', ('bad',)),
     ('SELECT sum(a), a FROM #t0 WHERE sum(a) > 0', ('bad',)),
@@ -133,6 +146,8 @@ FOLD_EXPRS = [
     ('yearmonth({0})', ['date']), ('str({0})', ['int']), ('decimal({0}) / {1}', ['int', 'int']), ('bool({0})', ['int']),
     ('int({0}) + {1}', ['dec', 'int']), ('coalesce({0}, {1})', ['int', 'int']), ('{0} IN (1, 2, 3)', ['int']),
     ('{0} BETWEEN {1} AND {2}', ['int', 'int', 'int']), ('root({0}, {1})', ['acct', 'pint']), ('leaf({0})', ['acct']),
+    ('coalesce({0} / {1}, {2})', ['int', 'int', 'dec']), ('coalesce({0} % {1}, {2})', ['int', 'int', 'int']),
+    ('coalesce(safediv({0}, {1}), {2})', ['dec', 'dec', 'dec']), ('coalesce({0} % {1}, {2}) + {3}', ['dec', 'int', 'dec', 'int']),
     ('parent({0})', ['acct']), ('date({0}, {1}, {2})', ['year', 'month', 'pday']), ('{0} AND {1} OR NOT {2}', ['bool', 'bool', 'bool']),
     # boolean connectives do not depend on operand types, so NULL constants are safe here (three-valued logic)
     ('{0} AND {1}', ['nbool', 'nbool']), ('{0} OR {1}', ['nbool', 'nbool']), ('{0} AND {1} AND {2}', ['nbool', 'nbool', 'nbool']),
